@@ -220,10 +220,27 @@ def stmt_S(kind, rnd, names, T, depth=0):
         f = rnd.choice(names)
         i = rnd.randrange(T[f][0])
         return E(B(rnd.choice(["eq", "ne"]), {"k": "part", "e": F(f), "hi": i, "lo": i, "bit": True}, lit(rnd.choice([0, 1]))))
+    if kind == "truthy":
+        # a condition (or a whole statement) that is no relation: a multi-bit field or a bitwise / arithmetic expression - it
+        # holds iff its value is not zero
+        def nz():
+            a, b = rnd.sample(names, 2)
+            return rnd.choice([F(a), B("and", F(a), F(b)), B("xor", F(a), F(b)), B("and", F(a), lit(rnd.choice([1, 2, 3]))),
+                               B("srl", F(a), lit(1)), B("sub", F(a), F(b))])
+        form = rnd.choice(["if", "imp", "stmt", "if"])
+        if form == "if":
+            return {"k": "if", "arms": [{"c": nz(), "body": [stmt_S("rel", rnd, names, T, 1)]}],
+                    "els": [stmt_S("rel", rnd, names, T, 1)] if rnd.random() < 0.7 else []}
+        if form == "imp":
+            return {"k": "imp", "c": nz(), "body": [stmt_S("rel", rnd, names, T, 1)]}
+        e = nz()
+        while e["k"] == "f":          # (a bare field written as a statement records nothing in the DSL: only expressions do)
+            e = nz()
+        return E(e)
     raise ValueError(kind)
 
 
-S_KINDS = ["rel", "andor", "notrel", "if", "ifnest", "imp", "in", "uniq", "part", "bit", "ifchain"]
+S_KINDS = ["rel", "andor", "notrel", "if", "ifnest", "imp", "in", "uniq", "part", "bit", "ifchain", "truthy"]
 
 
 def family_S(tier, seed, per_kind=None):
